@@ -1034,11 +1034,19 @@ def build_kzref_ref():
     out = os.path.join(kzv.VERIF, '.build', 'bin', 'kzref-ref')
     refdir = os.path.join(kzv.VERIF, '.build', 'ref')
     if os.path.exists(out):
-        return out
+        # rebuild when the harness sources (data generator, front end) are newer than the executable
+        newest = 0
+        for root, _, files in os.walk(kzv.HARNESS):
+            for f in files:
+                if f.endswith('.go'):
+                    newest = max(newest, os.path.getmtime(os.path.join(root, f)))
+        if os.path.getmtime(out) >= newest:
+            return out
     os.makedirs(refdir, exist_ok=True)
-    rc, so, se, dt = kzv.run(['tar', '-xzf', os.path.join(kzv.VERIF, 'reference', 'kanzi-v2-76efab5.tar.gz'), '-C', refdir])
-    if rc != 0:
-        raise kzv.ToolFailure('cannot unpack the reference snapshot: ' + se)
+    if not os.path.isdir(os.path.join(refdir, 'kanzi-ref')):
+        rc, so, se, dt = kzv.run(['tar', '-xzf', os.path.join(kzv.VERIF, 'reference', 'kanzi-v2-76efab5.tar.gz'), '-C', refdir])
+        if rc != 0:
+            raise kzv.ToolFailure('cannot unpack the reference snapshot: ' + se)
     mod = os.path.join(refdir, 'go.ref.mod')
     with open(mod, 'w') as fh:
         fh.write(open(os.path.join(kzv.HARNESS, 'go.mod')).read().replace('/repo/v2', os.path.join(refdir, 'kanzi-ref', 'v2')))
@@ -1122,6 +1130,12 @@ def C10(ck):
             for si, shape in enumerate(('text', 'skew')):
                 size = (4 << 20) + 100001 + 16 * ei + si
                 reqs.append({'transform': 'NONE', 'entropy': e, 'block': 8 << 20, 'jobs': 1, 'ck': [0, 32][si], 'hint': -1, 'shape': shape,
+                             'seed': ck.seed * 100000 + i, 'size': size, 'out': os.path.join(base, 'l%05d.knz' % i)})
+                i += 1
+        # (b4) dictionaries of the text transform that fill up: word lists of several hundred thousand distinct words in one block
+        for si, (size, block) in enumerate([(3600000, 4 << 20), (5600000, 8 << 20)] if T else [(3600000, 4 << 20)]):
+            for e in ('FPAQ', 'NONE', 'ANS0'):
+                reqs.append({'transform': 'TEXT', 'entropy': e, 'block': block, 'jobs': 1, 'ck': 32, 'hint': -1, 'shape': 'wordlist',
                              'seed': ck.seed * 100000 + i, 'size': size, 'out': os.path.join(base, 'l%05d.knz' % i)})
                 i += 1
         # the front ends take their work on the command line: batches small enough for the argument size limit
